@@ -265,8 +265,11 @@ Print Assumptions C03_write_then_file_framed.
    with a 1xx/204/304 status; a seekable file SHORTER than the declared length
    (prepare(size) replaces the application's header) and an empty seekable file;
    pipelining depth (parse_stream over several
-   service() calls: C04).  Error responses to HEAD requests carry a body (see
-   C03_frame_error: stated for the client of a non-HEAD request). *)
+   service() calls: C04).  Error responses (ErrorTask, request.error) to HEAD
+   requests carried a body until fix 7243240: C03_frame_error is for the client of
+   a non-HEAD request, C03_frame_error_head for the client of a HEAD request.  The
+   500 the ladder builds for a failed application did the same until fix 52947ac
+   (its request object had no command): C03_frame_500 / C03_frame_500_head. *)
 
 (* (1) no declared length; write() and/or chunks; any iterable that is iterated:
    chunked on HTTP/1.1, close-delimited on HTTP/1.0; the client recovers the bytes
@@ -465,7 +468,7 @@ Print Assumptions C03_close_after_failure.
    nothing is left over, the head says "Connection: close" exactly once (no
    Keep-Alive next to it), and the connection is closed. *)
 Theorem C03_frame_error : forall c r a code reason body,
-  cfg_clean c -> r_error r = Some ((code, reason), body) -> clean code -> clean reason ->
+  cfg_clean c -> r_error r = Some ((code, reason), body) -> r_head r = false -> clean code -> clean reason ->
   startswith (code ++ [32] ++ reason) (lit "1") || startswith (code ++ [32] ++ reason) (lit "204")
     || startswith (code ++ [32] ++ reason) (lit "304") = false ->
   let res := run_task c r a None in
@@ -480,15 +483,40 @@ Theorem C03_frame_error : forall c r a code reason body,
 Proof. exact frame_error. Qed.
 Print Assumptions C03_frame_error.
 
+(* ... and to a HEAD request (r_head: request.command == "HEAD"; ErrorTask.execute writes
+   b"" then -- fix 7243240, before it the body followed the head): the client, knowing
+   it asked with HEAD, reads exactly one response with the error's status line and NO
+   body, nothing is left over; the head still announces in Content-Length the length
+   the body would have, says "Connection: close" exactly once, and the connection is
+   closed.  (The 500 the ladder builds for a failed application uses a fresh request
+   object without a command: see C03_frame_500 and the report on HEAD there.) *)
+Theorem C03_frame_error_head : forall c r a code reason body,
+  cfg_clean c -> r_error r = Some ((code, reason), body) -> r_head r = true -> clean code -> clean reason ->
+  startswith (code ++ [32] ++ reason) (lit "1") || startswith (code ++ [32] ++ reason) (lit "204")
+    || startswith (code ++ [32] ++ reason) (lit "304") = false ->
+  let res := run_task c r a None in
+  o_raw res = None ->
+  let bodyb := err_body c reason body in
+  exists fields,
+    parse_one true (wire (o_writes res))
+    = Some (mkResponse (sl_err (r_version r) (code ++ [32] ++ reason)) fields FNoBody [], [])
+    /\ filter (field_is (lit "connection")) fields = [(lit "Connection", lit "close")]
+    /\ filter (field_is cl_name) fields = [(lit "Content-Length", to_dec (lenN bodyb))]
+    /\ In (client_field err_header) fields
+    /\ o_close res = true /\ o_next res = false /\ o_served_500 res = false /\ o_escaped res = None.
+Proof. exact frame_error_head. Qed.
+Print Assumptions C03_frame_error_head.
+
 (* ... and the 500 the ladder builds when the application failed before any output
    (C08_served_500: then o_writes res = response_500 ... (o_nws1 res)): whenever
    that error task itself completes, the client reads exactly one response
    "500 Internal Server Error" with Content-Length body bytes and a single
-   "Connection: close" (that the connection is then closed: C09_outcome). *)
+   "Connection: close" (that the connection is then closed: C09_outcome); the
+   failed request was not a HEAD. *)
 Theorem C03_frame_500 : forall c r n,
-  cfg_clean c ->
+  cfg_clean c -> r_head r = false ->
   let body := if c_expose_tracebacks c then c_tb c else internal_error_text in
-  let er := mkReq (r_version r) (r_connection r) false false (Some (err_InternalServerError, body)) in
+  let er := mkReq (r_version r) (r_connection r) (r_head r) false (Some (err_InternalServerError, body)) in
   x_out (task_run py_cap py_lower c er None (new_task (r_version r) true, mkChan [] n)
                   (inr (err_InternalServerError, body))) = Ok tt ->
   let bodyb := err_body c (lit "Internal Server Error") body in
@@ -499,3 +527,24 @@ Theorem C03_frame_500 : forall c r n,
     /\ In (client_field err_header) fields.
 Proof. exact frame_response_500. Qed.
 Print Assumptions C03_frame_500.
+
+(* ... and when the failed request was a HEAD (the ladder's err_request inherits the
+   command: fix 52947ac, before it the 500's body followed the head): the client,
+   knowing it asked with HEAD, reads the head and nothing is left over; the head still
+   announces in Content-Length the length the body would have and says
+   "Connection: close" once. *)
+Theorem C03_frame_500_head : forall c r n,
+  cfg_clean c -> r_head r = true ->
+  let body := if c_expose_tracebacks c then c_tb c else internal_error_text in
+  let er := mkReq (r_version r) (r_connection r) (r_head r) false (Some (err_InternalServerError, body)) in
+  x_out (task_run py_cap py_lower c er None (new_task (r_version r) true, mkChan [] n)
+                  (inr (err_InternalServerError, body))) = Ok tt ->
+  let bodyb := err_body c (lit "Internal Server Error") body in
+  exists fields,
+    parse_one true (wire (response_500 py_cap py_lower c r None n))
+    = Some (mkResponse (sl_err (r_version r) (lit "500 Internal Server Error")) fields FNoBody [], [])
+    /\ filter (field_is (lit "connection")) fields = [(lit "Connection", lit "close")]
+    /\ filter (field_is cl_name) fields = [(lit "Content-Length", to_dec (lenN bodyb))]
+    /\ In (client_field err_header) fields.
+Proof. exact frame_response_500_head. Qed.
+Print Assumptions C03_frame_500_head.
